@@ -82,4 +82,38 @@ def emptyResultType (dim : Int) : Option Nat :=
   if dim == 0 then some 0 else if dim == 1 then some 1 else if dim == 2 then some 3
   else if dim == -1 then some 7 else none
 
+/-! ### dispatch of `HeuristicOverlay` (src/geom/HeuristicOverlay.cpp)
+
+A geometry is abstracted to the list of `(dimension, isEmpty)` of its atomic elements (Point / LineString / Polygon, in
+any nesting of Multi* and GeometryCollection) plus "the top-level object is a GeometryCollection". -/
+
+structure Shape where
+  isGC : Bool
+  /-- `Geometry::getDimension()`: empty atoms count, a MultiX has the dimension of X even when it has no element,
+  an empty GeometryCollection has −1 (`Dimension::False`) -/
+  dim : Int
+  atoms : List (Int × Bool)
+deriving Repr
+
+def Shape.isEmpty (s : Shape) : Bool := s.atoms.all (·.2)
+
+/-- `Geometry::isMixedDimension()`: two atoms (empty or not) of different dimension -/
+def Shape.isMixedDimension (s : Shape) : Bool :=
+  match s.atoms with
+  | [] => false
+  | a :: r => r.any (·.1 != a.1)
+
+/-- `isHandledByOverlayNG` -/
+def Shape.handledByOverlayNG (s : Shape) : Bool :=
+  !(s.isMixedDimension && !s.isEmpty) && !(s.isGC && s.dim == 2)
+
+/-- `StructuredCollection::getDimension()` after `readCollection`: the largest dimension of a NON-empty atom,
+`Dimension::DONTCARE` (−3) if there is none -/
+def Shape.structuredDim (s : Shape) : Int :=
+  (s.atoms.filter (!·.2)).foldl (fun d a => max d a.1) (-3)
+
+/-- the pair of dimensions that reaches `OverlayUtil::resultDimension` -/
+def overlayDims (a b : Shape) : Int × Int :=
+  if a.handledByOverlayNG && b.handledByOverlayNG then (a.dim, b.dim) else (a.structuredDim, b.structuredDim)
+
 end GeosModel.Overlay
